@@ -701,10 +701,17 @@ def _decls(e):
     return out
 
 
-TRUSTED = ["os.path.splitext axioms A1-A3 (+A5 instances in alias/extension lemmas)", "mimetypes.guess_type total, deterministic",
+TRUSTED = ["os.path.splitext: A5 instances (positive case: stem + '.' + ext => that extension) as hypotheses of the alias / extension-routes "
+           "lemmas only; A1-A3 (+ root + ext == path) are no longer trusted: discharged on genericpath._splitext / posixpath.splitext of "
+           "this host's interpreter(s) (POSIX flavour of os.path; ntpath is not verified)",
+           "builtin str.rfind with a one-character needle, by its definition (s == a + c + b, c not in b, result len(a); -1 iff c not in s)",
+           "mimetypes.guess_type total, deterministic",
            "importlib.import_module succeeds for registry modules"]
-ASSUMED_MODELS = ["os.path.splitext (uninterpreted, axioms A1-A3)", "mimetypes.guess_type (uninterpreted: any MIME database)",
-                  "str.lower (uninterpreted, idempotent)", "importlib.import_module + getattr (function identity = (module, name))"]
+ASSUMED_MODELS = ["os.path.splitext (call-site view: uninterpreted with axioms A1-A3, which are DISCHARGED on the interpreter's own source: "
+                  "C07/genericpath.py::_splitext/*, C07/posixpath.py::splitext/*; assumed: os.path is posixpath)",
+                  "mimetypes.guess_type (uninterpreted: any MIME database)",
+                  "str.lower (uninterpreted, idempotent)", "str.rfind (one-character needle, definitional)",
+                  "importlib.import_module + getattr (function identity = (module, name))"]
 ASSUMPTIONS = ["PY-STR: str as sequence of code points (z3 String)", "PY-EXC", "logger calls dropped (PY-LOG)",
                "PY-MEMO: functools.lru_cache in front of a deterministic function is transparent (decorators are not executed); "
                "the MIME database does not change between a member's selection and its dispatch (cache soundness: C15)",
@@ -1256,6 +1263,7 @@ def ge_returns_for_term(s_term, repo=None):
 
 # ---- (round 7) os.path.splitext: axioms A1-A3 discharged on the interpreter's own source --------------------------------
 SPLITEXT = "genericpath.py::_splitext"
+SPLITEXT_POSIX = "posixpath.py::splitext"
 
 
 def stdlib_dirs():
@@ -1323,7 +1331,7 @@ class SliceExecutor(Executor):
         return [(st, VStr(z3.SubString(base.t, lo, n)))]
 
 
-def splitext_contract():
+def splitext_contract(wrapper=False):
     """`genericpath._splitext(p, '/', None, '.')` -- what posixpath.splitext(str) calls -- satisfies exactly the axioms the
     router proofs assume of the uninterpreted E / ROOT (`splitext_axioms`), and raises nothing, for EVERY string p."""
     from pyvc.contracts import LoopSpec
@@ -1350,11 +1358,17 @@ def splitext_contract():
         from pyvc.ops import int_term
         return int_term(lc["dotIndex"]) - int_term(lc["filenameIndex"])
 
+    clauses = [("A1-extension-empty-or-starts-with-dot", A1), ("A2-no-further-dot-in-extension", A2),
+               ("A3-no-separator-in-extension", A3), ("A4-root+extension-is-the-path", A4)]
+    if wrapper:
+        # posixpath.splitext(p) for a str p: the same four clauses, proved from the contract of genericpath._splitext at its call
+        return FnContract(target=SPLITEXT_POSIX, params=[("p", p_str())], ensures=clauses, raises=[], total=True,
+                          note="posixpath.splitext(str) = genericpath._splitext(p, '/', None, '.') (os.fspath of a str is the str)")
     return FnContract(
         target=SPLITEXT,
+        result_maker=lambda ex, st, cx: VTuple([VStr(z3.String(fresh_name("splitext!root"))), VStr(z3.String(fresh_name("splitext!ext")))]),
         params=[("p", p_str()), ("sep", p_const("/")), ("altsep", p_const(None)), ("extsep", p_const("."))],
-        ensures=[("A1-extension-empty-or-starts-with-dot", A1), ("A2-no-further-dot-in-extension", A2),
-                 ("A3-no-separator-in-extension", A3), ("A4-root+extension-is-the-path", A4)],
+        ensures=clauses,
         requires=lambda c: z3.And(ops.eq_term(c.args["sep"], VStr("/")), ops.eq_term(c.args["altsep"], NONE), ops.eq_term(c.args["extsep"], VStr("."))),
         raises=[], total=True,
         loops={0: LoopSpec(inv=inv, decreases=dec, label="leading-dots")},
@@ -1393,27 +1407,31 @@ def splitext_stdlib(repo, tier):
     seen = set()
     for d in stdlib_dirs():
         try:
-            sha = loader.module(SPLITEXT.split("::")[0], d).fn_info("_splitext")["segment_sha256"]
+            sha = tuple(loader.module(t.split("::")[0], d).fn_info(t.split("::")[1])["segment_sha256"] for t in (SPLITEXT, SPLITEXT_POSIX))
         except (OSError, KeyError, SyntaxError) as e:
-            raise ops.Unsupported(f"{d}: no readable genericpath._splitext ({type(e).__name__})")
+            raise ops.Unsupported(f"{d}: no readable genericpath._splitext / posixpath.splitext ({type(e).__name__})")
         if sha in seen:
             continue                       # the same source text in both interpreters: proved once
         reg = Registry()
         reg.ext_models["str.rfind"] = m_rfind
-        c = splitext_contract()
-        # (z3 gives up on the word equation a + "." + b == a' + "/" + b' of the path with both characters present; cvc5 closes those
-        # four VCs in ~0.05 s: a short z3 budget only bounds the time wasted before the second solver is asked)
-        rep = verify.run_contract("C07", c, reg, Universe(repo), repo=d, timeout_ms=12000 if tier == "thorough" else 5000,
-                                  executor_cls=SliceExecutor, post_hooks=(_drop_unused_decompositions,))
-        if rep.error or rep.out_of_subset:
-            raise ops.Unsupported(f"{d}: {(rep.error or rep.out_of_subset)[:200]}")
+        reg.ext_models["os.fspath"] = m_fspath
+        inner = splitext_contract()
+        reg.add(inner)
+        reg.ext_models["genericpath._splitext"] = inner      # what posixpath.splitext calls: the contract verified just below
+        for c in (inner, splitext_contract(wrapper=True)):
+            # (z3 gives up on the word equation a + "." + b == a' + "/" + b' of the path with both characters present; cvc5 closes
+            # that VC in ~0.05 s: a short z3 budget only bounds the time wasted before the second solver is asked)
+            rep = verify.run_contract("C07", c, reg, Universe(repo), repo=d, timeout_ms=12000 if tier == "thorough" else 5000,
+                                      executor_cls=SliceExecutor, post_hooks=(_drop_unused_decompositions,))
+            if rep.error or rep.out_of_subset:
+                raise ops.Unsupported(f"{d}/{c.target}: {(rep.error or rep.out_of_subset)[:200]}")
+            for o in rep.obligations:
+                o["function"] = f"{d}/{c.target}"
+                if seen:
+                    o["id"] += f"@{d.rsplit('/', 1)[-1]}"
+                obls.append(o)
+            fns.append(dict(rep.info, function=f"{d}/{c.target}", paths=rep.paths, obligations=len(rep.obligations), stdlib=True))
         seen.add(sha)
-        for o in rep.obligations:
-            o["function"] = f"{d}/{SPLITEXT}"
-            if len(seen) > 1:
-                o["id"] += f"@{d.rsplit('/', 1)[-1]}"
-            obls.append(o)
-        fns.append(dict(rep.info, function=f"{d}/{SPLITEXT}", paths=rep.paths, obligations=len(rep.obligations), stdlib=True))
     return {"obligations": obls, "functions": fns}
 
 
